@@ -1,5 +1,5 @@
 """C07 family 4: IPv4 / IPv6 labeled unicast (SAFI 4)."""
-from props.c07 import Family, ip6, ip4, caddr, mask, coq_list, coq_bytes
+from props.c07 import Family, ip6, ip4, caddr, mask, coq_list, coq_bytes, size_targets, fill_sizes
 from props.c07_vpn import LABELS, WITHDRAW_LABEL, render_low, cplen
 
 
@@ -73,6 +73,16 @@ class Lu(Family):
         for l in (0, 8, 24, bits):
             add('unreach', [rnd_route(l)])
         add('unreach', [rnd_route(), rnd_route()])
+        # ---- encoded-size boundaries: attribute value length, MP_REACH (a route with one label takes
+        # 1 + 3 + ceil(l/8) octets; l >= 1).  (MP_UNREACH of this family is a known finding as a whole.)
+        for target, ok in size_targets(ctx):
+            room = target - (5 + bits // 8)
+            rs = [rnd_route(rng.randrange(8 * (k - 5) + 1, 8 * (k - 4) + 1), [rng.randrange(1, 2 ** 20)])
+                  for k in fill_sizes(room, range(5, 5 + bits // 8), rng)]
+            add('reach', rs, rnd_nh() | 1 << (bits - 1))
+            cases[-1]['huge'] = target > 60000
+            if not ok:
+                cases[-1]['unencodable'] = 'attribute value of %d octets' % target
         c = {'fam': self.name, 'kind': 'reach', 'v': {'routes': [], 'nh': rnd_nh()}, 'cls': [], 'empty': True}
         cases.append(c)
         return cases
